@@ -50,7 +50,9 @@ impl<'a> ProjectionStrategy for SelectionProjection<'a> {
         } = &self.plan.command
         {
             let payload_set: HashSet<String> = all_payload.into_iter().collect();
-            let projected: HashSet<String> = list
+            // Keep the RETURN order: this runs once for the flow schema and once more inside the
+            // memtable source, and both must see the same column order
+            let projected: Vec<String> = list
                 .iter()
                 .filter(|f| {
                     ProjectionContext::is_core_field(f) || payload_set.contains(&f.to_string())
